@@ -41,14 +41,18 @@ def mc(Depth, SeedIds, HistOps, TargetOps, **kw):
 CHECKS = {
     'C01': dict(
         props=['C01'], opts='props=0 q=1',
-        quick=[mc(2, SMALL, DEL, DEL + GC + BUT + ['add_edge', 'add_cell_closed'], Modes='ModesTwo'),
+        quick=[mc(2, [2, 5, 6], DEL, DEL + GC + BUT + ['add_edge', 'add_cell_closed'], Modes='ModesTwo'),
+               mc(2, [4], DEL, DEL + GC + BUT + ['add_edge', 'add_cell_closed'], Modes='ModesTwo', BUSets='BUTwo'),
                mc(1, MAINSEEDS + EXTRA, [], SWAP + ['add_face_v'] + SETS + DEL, Modes='ModesDefault'),
                mc(2, [5, 6], DEL, SWAP + SETS, Modes='ModesDeferred', BUSets='BUOn'),
                # delete, re-add on the freed halffaces, collect: the collection must not disturb the new cell
-               mc(3, [1, 5, 2], ['delete_cell', 'delete_face', 'add_cell_closed', 'add_face_v'], GC + ['enable_deferred', 'delete_cell'],
-                  Modes='ModesDeferred', BUSets='BUTwo')],
+               mc(3, [1, 5], ['delete_cell', 'delete_face', 'add_cell_closed', 'add_face_v'], GC + ['enable_deferred', 'delete_cell'],
+                  Modes='ModesDeferred', BUSets='BUTwo', Tree=True)],
         thorough=[mc(3, [2, 5, 6], DEL + GC, DEL + GC + BUT + ['add_edge', 'add_face_v', 'add_cell_closed']),
+                  mc(2, [4], DEL, DEL + GC + BUT + ['add_edge', 'add_cell_closed'], Modes='ModesTwo'),
                   mc(2, SMALL + EXTRA, DEL, SWAP + SETS, Modes='ModesTwo'),
+                  mc(3, [2], ['delete_cell', 'delete_face', 'add_cell_closed', 'add_face_v'], GC + ['enable_deferred', 'delete_cell'],
+                     Modes='ModesDeferred', BUSets='BUTwo'),
                   mc(4, [1, 5], ['delete_cell', 'delete_face', 'add_cell_closed'], GC + ['enable_deferred', 'delete_cell'], Modes='ModesDeferred')],
         sim=dict(ops=DEL + GC + ADDS + BUT + SWAP + MODE + SETS + ['enable_bu', 'reorder', 'reserve']),
     ),
